@@ -45,6 +45,14 @@ func splitAnswer(ans string) (obs, digest string) {
 
 // runSchedule executes one schedule of scn on a fresh real cache (and on the model).
 func runSchedule(r *corr.Run, scn []opSpec, choose chooser, allVerdicts bool) *runResult {
+	// caller-context cancellation is not part of the Lean LTS: such scenarios run on the real
+	// cache with the direct oracle only
+	model := useModel
+	for _, o := range scn {
+		if o.ctx {
+			model = false
+		}
+	}
 	x := newExec(scn)
 	real.VerifHook = x.hook
 	defer func() { real.VerifHook = nil }()
@@ -58,7 +66,7 @@ func runSchedule(r *corr.Run, scn []opSpec, choose chooser, allVerdicts bool) *r
 		queue = append(queue, pending{stream, line, impl})
 	}
 	flush := func() {
-		if !useModel {
+		if !model {
 			return
 		}
 		ls := make([]string, len(queue))
